@@ -471,8 +471,15 @@ pub async fn catch_up_sub(
                     _ = cancel.cancelled() => {
                         break;
                     },
-                    Ok(res) = sub_rx.recv() => res,
-                    else => break
+                    res = sub_rx.recv() => match res {
+                        Ok(res) => res,
+                        Err(RecvError::Lagged(skipped)) => {
+                            return Err(eyre::eyre!(
+                                "catching up too slowly, skipped {skipped} events"
+                            ));
+                        }
+                        Err(RecvError::Closed) => break,
+                    },
                 };
 
                 if let QueryEventMeta::Change(change_id) = meta
@@ -647,7 +654,14 @@ pub async fn catch_up_sub(
         }
     };
 
-    forward_sub_to_sender(matcher, sub_rx, evt_tx, params.skip_rows).await
+    forward_sub_to_sender(
+        matcher,
+        sub_rx,
+        evt_tx,
+        params.skip_rows,
+        Some(last_change_id),
+    )
+    .await
 }
 
 pub async fn upsert_sub(
@@ -670,6 +684,7 @@ pub async fn upsert_sub(
             sub_rx,
             tx,
             params.skip_rows,
+            None,
         ));
 
         bcast_write.insert(handle.id(), sub_tx.clone());
@@ -820,6 +835,9 @@ async fn forward_sub_to_sender(
     mut sub_rx: broadcast::Receiver<(Bytes, QueryEventMeta)>,
     tx: mpsc::Sender<(Bytes, QueryEventMeta)>,
     skip_rows: bool,
+    // last change already delivered to this subscriber while it caught up: events that were
+    // still in flight to the broadcast channel at the hand-over must not be sent again
+    mut last_change_id: Option<ChangeId>,
 ) {
     info!(sub_id = %handle.id(), "forwarding subscription events to a sender");
 
@@ -851,6 +869,14 @@ async fn forward_sub_to_sender(
             )
         {
             continue;
+        }
+        if let QueryEventMeta::Change(change_id) = meta
+            && let Some(last) = last_change_id
+        {
+            if change_id <= last {
+                continue;
+            }
+            last_change_id = Some(change_id);
         }
         if let Err(e) = tx.send((event_buf, meta)).await {
             warn!(sub_id = %handle.id(), "could not send subscription event to channel: {e}");
